@@ -26,6 +26,7 @@ def scenario_for(name):
         sc = SC(**w.client_kwargs)
         nconn = [0]
         back_ref = [None]
+        deliver_ref = [None]
 
         async def send_hook(pkt):
             # the server accepts every namespace CONNECT; its answer comes
@@ -40,6 +41,8 @@ def scenario_for(name):
                     if w.eio.state != 'connected':
                         return
                     await sc.client._handle_eio_message('0{"sid":"S%d"}' % n)
+                    if n >= 2 and opts.get('greeting'):
+                        await deliver_ref[0](opts['greeting'])
                     if n >= 2:
                         back_ref[0].set()
                 loop.create_task(answer())
@@ -71,6 +74,8 @@ def scenario_for(name):
             st['arrived'].append(ev)
             await sc.client._handle_eio_message('2["%s",1]' % ev)
             st['completed'] += 1
+
+        deliver_ref[0] = deliver
 
         async def producer():
             for step in producer_script:
@@ -123,7 +128,9 @@ def scenario_for(name):
                     st['results'].append(('exc', type(e).__name__,
                                           len(sc.input_buffer), st['final'],
                                           st['completed'] -
-                                          len(st['returned'])))
+                                          len(st['returned']),
+                                          st['pending_at_timer'][-1]
+                                          if st['pending_at_timer'] else 0))
         loop.create_task(consumer())
         loop.create_task(producer())
         if opts.get('after_reconnect'):
